@@ -30,6 +30,8 @@ enum RefErr {
 struct Db {
     a: Vec<Vec<Val>>,
     b: Vec<Vec<Val>>,
+    /// table C(k, s) of the string-join group; None = the table does not exist
+    c: Option<Vec<Vec<Val>>>,
 }
 
 fn lookup(cols: &[(String, bool)], name: &str) -> Result<usize, RefErr> {
@@ -75,6 +77,7 @@ fn ref_select(db: &Db, s: &Sel) -> Result<RefTable, RefErr> {
         Sel::Table(t) => match t.as_str() {
             "A" => Ok(RefTable { name: Some("A".into()), cols: vec![("x".into(), false), ("y".into(), true)], rows: db.a.clone() }),
             "B" => Ok(RefTable { name: Some("B".into()), cols: vec![("u".into(), false), ("v.w".into(), true)], rows: db.b.clone() }),
+            "C" if db.c.is_some() => Ok(RefTable { name: Some("C".into()), cols: vec![("k".into(), false), ("s".into(), true)], rows: db.c.clone().unwrap() }),
             _ => Err(RefErr::Err),
         },
         Sel::Wrap { from, cols, cond } => {
@@ -203,6 +206,7 @@ fn col_names(s: &Sel) -> (Option<String>, Vec<String>) {
     match s {
         Sel::Table(t) if t == "A" => (Some("A".into()), vec!["x".into(), "y".into()]),
         Sel::Table(t) if t == "B" => (Some("B".into()), vec!["u".into(), "v.w".into()]),
+        Sel::Table(t) if t == "C" => (Some("C".into()), vec!["k".into(), "s".into()]),
         Sel::Table(_) => (None, vec![]),
         Sel::Wrap { from, cols, .. } => {
             let (n, c) = col_names(from);
@@ -344,6 +348,255 @@ fn top_kind(s: &Sel) -> &'static str {
     }
 }
 
+/// Runs one select tree on the package and compares it with the reference.
+/// Ok(class): 0 compared row by row, 1 must fail and failed, 2 unspecified.
+/// Err((signature, detail, fatal)).
+fn eval_tree(h: &mut Harness, db: &Db, t: &Sel) -> Result<usize, (String, String, bool)> {
+    let want = ref_select(db, t);
+    let got = catch(|| match h.p().select_rows(t.to_msi()) {
+        Err(e) => Err(format!("{:?}", e.kind())),
+        Ok(rows) => {
+            let reported = rows.len();
+            let cols: Vec<(String, bool)> = rows.columns().iter().map(|c| (c.name().to_string(), c.is_nullable())).collect();
+            let v: Vec<Vec<Val>> = rows.map(|r| (0..r.len()).map(|i| Val::from_msi(&r[i])).collect()).collect();
+            Ok((cols, v, reported))
+        }
+    });
+    let mut ctx = format!("A={} B={}", crate::snapshot::show_rows(&Ok(db.a.clone())), crate::snapshot::show_rows(&Ok(db.b.clone())));
+    if let Some(c) = &db.c {
+        ctx.push_str(&format!(" C={}", crate::snapshot::show_rows(&Ok(c.clone()))));
+    }
+    match got {
+        Err(p) => Err((format!("panic:{}:{}", top_kind(t), panic_site(&p)), format!("{} panicked: {} [{}]", t.show(), p, ctx), true)),
+        Ok(got) => match (want, got) {
+            (Err(RefErr::Unspecified), _) => Ok(2),
+            (Err(RefErr::Err), Err(_)) => Ok(1),
+            (Err(RefErr::Err), Ok(_)) => Err((format!("accepted-unknown-name:{}", top_kind(t)), format!("{} must be an error (unknown table or column) but returned rows [{}]", t.show(), ctx), false)),
+            (Ok(_), Err(e)) => Err((format!("refused-valid:{}", top_kind(t)), format!("{} failed with {} [{}]", t.show(), e, ctx), false)),
+            (Ok(w), Ok((cols, rows, reported))) => {
+                let wn: Vec<&String> = w.cols.iter().map(|c| &c.0).collect();
+                let gn: Vec<&String> = cols.iter().map(|c| &c.0).collect();
+                if wn != gn {
+                    Err((format!("column-names:{}", top_kind(t)), format!("{} has columns {:?}, expected {:?}", t.show(), gn, wn), false))
+                } else if rows != w.rows {
+                    Err((format!("rows:{}", top_kind(t)), format!("{} returned {} expected {} [{}]", t.show(), crate::snapshot::show_rows(&Ok(rows)), crate::snapshot::show_rows(&Ok(w.rows.clone())), ctx), false))
+                } else if reported != w.rows.len() {
+                    Err((format!("reported-length:{}", top_kind(t)), format!("{} reported {} rows, yielded {}", t.show(), reported, w.rows.len()), false))
+                } else if matches!(t, Sel::Left(..)) && w.cols.iter().zip(cols.iter()).any(|(a, b)| a.1 && !b.1) {
+                    Err(("left-join-nullability".into(), format!("{}: a right-hand column is not marked nullable: {:?}", t.show(), cols), false))
+                } else {
+                    Ok(0)
+                }
+            }
+        },
+    }
+}
+
+// ------------------------------------------------------------------------- //
+// String joins on packages with a history: the same text can sit in several
+// string-pool entries (entries freed by a delete are re-used before an
+// existing entry is looked up; foreign files may store a string twice), and
+// equality in conditions is equality of text.
+// ------------------------------------------------------------------------- //
+
+const MODES: [&str; 7] = ["direct", "holes-then-C", "holes-then-B", "holes-then-C+reopen", "encoded-with-duplicate-pool-entries", "placeholders-updated", "delete-and-reinsert"];
+
+fn string_contents(tier: Tier) -> Vec<Vec<Vec<Val>>> {
+    let vs = [Val::Null, Val::s("1"), Val::s("a")];
+    let mut out = vec![vec![]];
+    for v in &vs {
+        out.push(vec![vec![Val::Int(1), v.clone()]]);
+    }
+    for v1 in &vs {
+        for v2 in &vs {
+            out.push(vec![vec![Val::Int(1), v1.clone()], vec![Val::Int(2), v2.clone()]]);
+        }
+    }
+    if !tier.thorough() {
+        return vec![out[0].clone(), out[3].clone(), out[6].clone(), out[11].clone(), out[12].clone()];
+    }
+    out
+}
+
+fn string_trees() -> Vec<Sel> {
+    let (bs, cs, bk, ck) = ("B.v.w", "C.s", "B.u", "C.k");
+    let eq = |a: &str, b: &str| E::bin(Bin::Eq, E::col(a), E::col(b));
+    let ons = vec![
+        eq(bs, cs),
+        eq(cs, bs),
+        E::bin(Bin::Ne, E::col(bs), E::col(cs)),
+        E::bin(Bin::Lt, E::col(bs), E::col(cs)),
+        E::bin(Bin::And, eq(bs, cs), eq(bk, ck)),
+        E::bin(Bin::Or, eq(bs, cs), eq(bk, ck)),
+        eq(bk, ck),
+    ];
+    let mut out = Vec::new();
+    for (l, r) in [("B", "C"), ("C", "B")] {
+        for on in &ons {
+            out.push(Sel::Inner(Box::new(Sel::table(l)), Box::new(Sel::table(r)), on.clone()));
+            out.push(Sel::Left(Box::new(Sel::table(l)), Box::new(Sel::table(r)), on.clone()));
+        }
+    }
+    let w = |from: Sel, cols: &[&str], cond: Option<E>| Sel::Wrap { from: Box::new(from), cols: cols.iter().map(|c| c.to_string()).collect(), cond };
+    // filters against literals
+    out.push(w(Sel::table("C"), &[], Some(E::bin(Bin::Eq, E::col("s"), E::str("a")))));
+    out.push(w(Sel::table("B"), &[], Some(E::bin(Bin::Eq, E::col("v.w"), E::str("1")))));
+    out.push(w(Sel::table("C"), &["s"], Some(E::bin(Bin::Ne, E::col("s"), E::str("a")))));
+    // projected operands (anonymous columns), self-join through a projection
+    out.push(Sel::Inner(Box::new(w(Sel::table("B"), &["v.w", "u"], None)), Box::new(Sel::table("C")), eq("v.w", cs)));
+    out.push(Sel::Left(Box::new(Sel::table("C")), Box::new(w(Sel::table("B"), &["v.w"], None)), eq(cs, "v.w")));
+    out.push(Sel::Inner(Box::new(w(Sel::table("C"), &["s"], None)), Box::new(Sel::table("C")), eq("s", cs)));
+    out.push(Sel::Left(Box::new(w(Sel::table("B"), &["v.w"], None)), Box::new(Sel::table("B")), eq("v.w", bs)));
+    // equality between two columns of one result row, as a filter
+    out.push(w(Sel::Inner(Box::new(Sel::table("B")), Box::new(Sel::table("C")), eq(bk, ck)), &[], Some(eq(bs, cs))));
+    out.push(w(Sel::Left(Box::new(Sel::table("B")), Box::new(Sel::table("C")), E::int(1)), &[cs, bs], Some(eq(cs, bs))));
+    // join of a join
+    out.push(Sel::Inner(Box::new(Sel::Inner(Box::new(Sel::table("B")), Box::new(Sel::table("C")), eq(bs, cs))), Box::new(Sel::table("A")), E::bin(Bin::Eq, E::col("C.k"), E::col("A.x"))));
+    out
+}
+
+fn string_db_package(db: &Db, mode: usize) -> Result<Harness, String> {
+    let a_cols = vec![ColSpec::new("x", Ty::I16).key(), ColSpec::new("y", Ty::I16).nullable()];
+    let b_cols = vec![ColSpec::new("u", Ty::I16).key(), ColSpec::new("v.w", Ty::Str(4)).nullable()];
+    let c_cols = vec![ColSpec::new("k", Ty::I16).key(), ColSpec::new("s", Ty::Str(4)).nullable()];
+    let b = db.b.clone();
+    let c = db.c.clone().unwrap();
+    if mode == 4 {
+        use crate::enc::{default_summary, encode, EncCol, EncDb, EncTable, PoolStyle, RowOrder};
+        let t = |name: &str, cols: &Vec<ColSpec>, rows: &Vec<Vec<Val>>| EncTable { name: name.into(), cols: cols.iter().map(|c| EncCol { spec: c.clone(), width1_quirk: false }).collect(), rows: rows.clone() };
+        let enc = EncDb {
+            ptype: 0,
+            codepage_id: 0,
+            long_refs: false,
+            pool_style: PoolStyle::Duplicates,
+            with_validation: true,
+            row_order: RowOrder::Ascending,
+            tables: vec![t("A", &a_cols, &db.a), t("B", &b_cols, &b), t("C", &c_cols, &c)],
+            streams: vec![],
+            summary: default_summary(),
+            extra_pool_strings: vec![],
+            ghost_strings: vec![],
+        };
+        return Harness::open(encode(&enc));
+    }
+    let mut h = Harness::create(0)?;
+    let mut ops: Vec<Op> = vec![
+        Op::CreateTable { name: "A".into(), cols: a_cols },
+        Op::CreateTable { name: "B".into(), cols: b_cols },
+        Op::CreateTable { name: "C".into(), cols: c_cols },
+        Op::Insert { table: "A".into(), rows: db.a.clone() },
+    ];
+    let scratch = vec![
+        Op::CreateTable { name: "S".into(), cols: vec![ColSpec::new("k", Ty::I16).key(), ColSpec::new("t", Ty::Str(8)).nullable()] },
+        Op::Insert { table: "S".into(), rows: vec![vec![Val::Int(1), Val::s("p")], vec![Val::Int(2), Val::s("q")], vec![Val::Int(3), Val::s("r")]] },
+    ];
+    let free = Op::Delete { table: "S".into(), cond: None };
+    let ins = |t: &str, rows: &Vec<Vec<Val>>| Op::Insert { table: t.into(), rows: rows.clone() };
+    match mode {
+        0 => {
+            ops.push(ins("B", &b));
+            ops.push(ins("C", &c));
+        }
+        1 | 3 => {
+            ops.extend(scratch);
+            ops.push(ins("B", &b));
+            ops.push(free);
+            ops.push(ins("C", &c));
+            if mode == 3 {
+                ops.push(Op::Reopen);
+            }
+        }
+        2 => {
+            ops.extend(scratch);
+            ops.push(ins("C", &c));
+            ops.push(free);
+            ops.push(ins("B", &b));
+        }
+        5 => {
+            // rows inserted with placeholder texts, then updated to the target
+            let ph = |rows: &Vec<Vec<Val>>, tag: &str| -> Vec<Vec<Val>> { rows.iter().map(|r| vec![r[0].clone(), Val::s(&format!("{}{}", tag, r[0].show()).chars().filter(|c| c.is_ascii_alphanumeric()).take(4).collect::<String>())]).collect() };
+            ops.push(ins("B", &ph(&b, "b")));
+            ops.push(ins("C", &ph(&c, "c")));
+            for (t, col, key, rows) in [("B", "v.w", "u", &b), ("C", "s", "k", &c)] {
+                for r in rows.iter() {
+                    ops.push(Op::Update { table: t.into(), sets: vec![(col.into(), r[1].clone())], cond: Some(E::bin(Bin::Eq, E::col(key), E::Lit(r[0].clone()))) });
+                }
+            }
+        }
+        _ => {
+            // everything inserted, B deleted and inserted again
+            ops.push(ins("B", &b));
+            ops.push(ins("C", &c));
+            ops.push(Op::Delete { table: "B".into(), cond: None });
+            ops.push(ins("B", &b));
+        }
+    }
+    for op in &ops {
+        if let Op::Insert { rows, .. } = op {
+            if rows.is_empty() {
+                continue;
+            }
+        }
+        match h.apply(op) {
+            Outcome::Ok => {}
+            o => return Err(format!("setup step {} -> {:?}", op.show(), o)),
+        }
+    }
+    Ok(h)
+}
+
+/// (evaluations, compared row by row, violations)
+fn string_join_group(tier: Tier) -> (u64, u64, Vec<(String, String, serde_json::Value)>) {
+    let cont = string_contents(tier);
+    let trees = string_trees();
+    let a_rows = vec![vec![Val::Int(1), Val::Int(2)], vec![Val::Int(2), Val::Null]];
+    let mut jobs: Vec<(usize, usize, usize)> = Vec::new();
+    for ib in 0..cont.len() {
+        for ic in 0..cont.len() {
+            for m in 0..MODES.len() {
+                jobs.push((ib, ic, m));
+            }
+        }
+    }
+    let results: Vec<(u64, u64, Vec<(String, String, serde_json::Value)>)> = jobs
+        .par_iter()
+        .map(|(ib, ic, m)| {
+            let db = Db { a: a_rows.clone(), b: cont[*ib].clone(), c: Some(cont[*ic].clone()) };
+            let doc = |t: Option<&Sel>| json!({"kind":"c12-strings","mode":m,"b":db.b,"c":db.c,"tree":t});
+            let mut h = match string_db_package(&db, *m) {
+                Ok(h) => h,
+                Err(e) => return (0, 0, vec![(format!("string-joins:setup:{}", MODES[*m]), format!("building B={:?} C={:?} in mode {}: {}", db.b, db.c, MODES[*m], e), doc(None))]),
+            };
+            let mut n = 0;
+            let mut compared = 0;
+            let mut vs = Vec::new();
+            for t in &trees {
+                n += 1;
+                match eval_tree(&mut h, &db, t) {
+                    Ok(0) => compared += 1,
+                    Ok(_) => {}
+                    Err((sig, detail, fatal)) => {
+                        vs.push((format!("string-joins:{}:{}", MODES[*m], sig), format!("[tables built in mode {}] {}", MODES[*m], detail), doc(Some(t))));
+                        if fatal {
+                            break;
+                        }
+                    }
+                }
+            }
+            (n, compared, vs)
+        })
+        .collect();
+    let mut n = 0;
+    let mut compared = 0;
+    let mut vs = Vec::new();
+    for (a, b, v) in results {
+        n += a;
+        compared += b;
+        vs.extend(v);
+    }
+    (n, compared, vs)
+}
+
 pub fn run(tier: Tier) -> i32 {
     let mut rep = Report::new("C12", tier, "model_checking");
     rep.assume("reference semantics of DESIGN.md appendix C; a column name that matches two result columns (self-join) is unspecified: only totality is demanded there");
@@ -354,7 +607,7 @@ pub fn run(tier: Tier) -> i32 {
     let results: Vec<(u64, [u64; 4], Vec<(String, String, usize)>)> = combos
         .par_iter()
         .map(|(ia, ib)| {
-            let db = Db { a: ca[*ia].clone(), b: cb[*ib].clone() };
+            let db = Db { a: ca[*ia].clone(), b: cb[*ib].clone(), c: None };
             let mut h = Harness::create(0).expect("create");
             let setup = [
                 Op::CreateTable { name: "A".into(), cols: vec![ColSpec::new("x", Ty::I16).key(), ColSpec::new("y", Ty::I16).nullable()] },
@@ -375,44 +628,16 @@ pub fn run(tier: Tier) -> i32 {
             let mut vs = Vec::new();
             for (ti, t) in ts.iter().enumerate() {
                 n += 1;
-                let want = ref_select(&db, t);
-                let got = catch(|| match h.p().select_rows(t.to_msi()) {
-                    Err(e) => Err(format!("{:?}", e.kind())),
-                    Ok(rows) => {
-                        let reported = rows.len();
-                        let cols: Vec<(String, bool)> = rows.columns().iter().map(|c| (c.name().to_string(), c.is_nullable())).collect();
-                        let v: Vec<Vec<Val>> = rows.map(|r| (0..r.len()).map(|i| Val::from_msi(&r[i])).collect()).collect();
-                        Ok((cols, v, reported))
-                    }
-                });
-                let ctx = format!("A={} B={}", crate::snapshot::show_rows(&Ok(db.a.clone())), crate::snapshot::show_rows(&Ok(db.b.clone())));
-                match got {
-                    Err(p) => {
-                        classes[3] += 1;
-                        vs.push((format!("panic:{}:{}", top_kind(t), panic_site(&p)), format!("{} panicked: {} [{}]", t.show(), p, ctx), ti));
-                        // the container lock may be poisoned now
-                        break;
-                    }
-                    Ok(got) => match (want, got) {
-                        (Err(RefErr::Unspecified), _) => classes[2] += 1,
-                        (Err(RefErr::Err), Err(_)) => classes[1] += 1,
-                        (Err(RefErr::Err), Ok(_)) => vs.push((format!("accepted-unknown-name:{}", top_kind(t)), format!("{} must be an error (unknown table or column) but returned rows [{}]", t.show(), ctx), ti)),
-                        (Ok(_), Err(e)) => vs.push((format!("refused-valid:{}", top_kind(t)), format!("{} failed with {} [{}]", t.show(), e, ctx), ti)),
-                        (Ok(w), Ok((cols, rows, reported))) => {
-                            classes[0] += 1;
-                            let wn: Vec<&String> = w.cols.iter().map(|c| &c.0).collect();
-                            let gn: Vec<&String> = cols.iter().map(|c| &c.0).collect();
-                            if wn != gn {
-                                vs.push((format!("column-names:{}", top_kind(t)), format!("{} has columns {:?}, expected {:?}", t.show(), gn, wn), ti));
-                            } else if rows != w.rows {
-                                vs.push((format!("rows:{}", top_kind(t)), format!("{} returned {} expected {} [{}]", t.show(), crate::snapshot::show_rows(&Ok(rows)), crate::snapshot::show_rows(&Ok(w.rows.clone())), ctx), ti));
-                            } else if reported != w.rows.len() {
-                                vs.push((format!("reported-length:{}", top_kind(t)), format!("{} reported {} rows, yielded {}", t.show(), reported, w.rows.len()), ti));
-                            } else if matches!(t, Sel::Left(..)) && w.cols.iter().zip(cols.iter()).any(|(a, b)| a.1 && !b.1) {
-                                vs.push(("left-join-nullability".into(), format!("{}: a right-hand column is not marked nullable: {:?}", t.show(), cols), ti));
-                            }
+                match eval_tree(&mut h, &db, t) {
+                    Ok(class) => classes[class] += 1,
+                    Err((sig, detail, fatal)) => {
+                        vs.push((sig, detail, ti));
+                        if fatal {
+                            classes[3] += 1;
+                            // the container lock may be poisoned now
+                            break;
                         }
-                    },
+                    }
                 }
             }
             (n, classes, vs)
@@ -429,6 +654,14 @@ pub fn run(tier: Tier) -> i32 {
             rep.violation(sig, d, json!({"kind":"c12","tree":ts[ti]}));
         }
     }
+    let (sn, scompared, svs) = string_join_group(tier);
+    for (sig, d, doc) in svs {
+        rep.violation(sig, d, doc);
+    }
+    total += sn;
+    classes[0] += scompared;
+    rep.set("string_join_evaluations", sn);
+    rep.set("string_join_construction_modes", MODES.len());
     let shapes: BTreeSet<String> = ts.iter().map(shape).collect();
     rep.set("states", total);
     rep.set("transitions", total);
@@ -442,17 +675,32 @@ pub fn run(tier: Tier) -> i32 {
     rep.set("must_fail_and_failed", classes[1]);
     rep.set("unspecified_ambiguous_name", classes[2]);
     rep.set("exhaustive", true);
-    rep.set("rule", "every select tree of the tier's family (tables, filters, projections, inner and left joins, self-joins, wrapped joins, joins of joins; join conditions: key equality, key order, nullable = nullable, TRUE, FALSE, NULL, unknown column; unknown tables and columns in every position) x every content of A(x,y) and B(u,v) in the tier's set (thorough: all 16 x 16 contents with <= 2 rows over {null,1,2}), compared with a reference nested-loop evaluator: Ok/Err, column names, rows in order, reported length, nullability of the right side of a left join. distinct_nontrivial = (tree, content) pairs compared row by row");
+    rep.set("rule", "every select tree of the tier's family (tables, filters, projections, inner and left joins, self-joins, wrapped joins, joins of joins; join conditions: key equality, key order, nullable = nullable, TRUE, FALSE, NULL, unknown column; unknown tables and columns in every position) x every content of A(x,y) and B(u,v) in the tier's set (thorough: all 16 x 16 contents with <= 2 rows over {null,1,2}), compared with a reference nested-loop evaluator: Ok/Err, column names, rows in order, reported length, nullability of the right side of a left join. distinct_nontrivial = (tree, content) pairs compared row by row. String-join group: joins and filters on string equality / order between B(u, v.w) and C(k, s) (+ projections, self-joins, a join of a join) x table contents over {null,'1','a'} x 7 ways of building the same contents (direct; re-using pool entries freed by a delete, in both table orders, also reopened; an independently encoded file whose pool stores strings twice; placeholders then updates; delete and re-insert)");
     rep.sample(json!({"tree": ts[ts.len() / 2].show()}));
     rep.sample(json!({"tree": ts[ts.len() - 1].show()}));
     rep.finish()
 }
 
 pub fn replay(doc: &serde_json::Value) {
+    if doc["kind"] == "c12-strings" {
+        let db = Db { a: vec![vec![Val::Int(1), Val::Int(2)], vec![Val::Int(2), Val::Null]], b: serde_json::from_value(doc["b"].clone()).unwrap(), c: serde_json::from_value(doc["c"].clone()).unwrap() };
+        let mode = doc["mode"].as_u64().unwrap() as usize;
+        println!("tables built in mode {}: B={:?} C={:?}", MODES[mode], db.b, db.c);
+        match string_db_package(&db, mode) {
+            Err(e) => println!("setup: {}", e),
+            Ok(mut h) => {
+                if let Ok(t) = serde_json::from_value::<Sel>(doc["tree"].clone()) {
+                    println!("tree: {}", t.show());
+                    println!("verdict: {:?}", eval_tree(&mut h, &db, &t));
+                }
+            }
+        }
+        return;
+    }
     let t: Sel = serde_json::from_value(doc["tree"].clone()).unwrap();
     println!("tree: {}", t.show());
     println!("text: {:?}", catch(|| t.to_msi().to_string()));
-    let db = Db { a: vec![vec![Val::Int(1), Val::Int(1)], vec![Val::Int(2), Val::Null]], b: vec![vec![Val::Int(1), Val::s("a")]] };
+    let db = Db { a: vec![vec![Val::Int(1), Val::Int(1)], vec![Val::Int(2), Val::Null]], b: vec![vec![Val::Int(1), Val::s("a")]], c: None };
     let mut h = Harness::create(0).expect("create");
     for op in [
         Op::CreateTable { name: "A".into(), cols: vec![ColSpec::new("x", Ty::I16).key(), ColSpec::new("y", Ty::I16).nullable()] },
